@@ -338,8 +338,17 @@ fn slot() -> usize {
     })
 }
 
+pub fn current_dir() -> String {
+    format!("{}/work/c06-current", crate::findings::verif_dir())
+}
+
 fn watched(pool: &Vec<String>, st: &mut Stats) -> Result<(), Failure> {
     let k = slot();
+    // multi-string pools and long inputs also leave a trace on disk: if the process dies (abort on
+    // allocation failure, stack overflow) the supervising parent re-executes the candidates one by one
+    if pool.len() > 1 || pool.iter().any(|s| s.len() > 64) {
+        let _ = std::fs::write(format!("{}/{}.json", current_dir(), k), serde_json::to_string(pool).unwrap_or_default());
+    }
     {
         let mut c = CURRENT.lock().unwrap();
         let shown: Vec<String> = pool.iter().map(|s| if s.len() > 300 { format!("{}... ({} bytes)", &s.chars().take(200).collect::<String>(), s.len()) } else { s.clone() }).collect();
@@ -455,7 +464,38 @@ pub fn scaling_families() -> Vec<(&'static str, String, String)> {
         ("foo||", "foo||".into(), "1.2.3".into()),
         (">=1.y_", ">=1.y ".into(), "".into()),
         ("1.2.3.4_", "1.2.3.4 ".into(), "2".into()),
+        // counting families: `{i}` is the running index, so all units differ from each other (anything that
+        // compares, searches or de-duplicates earlier units shows here and not in the repetitions above)
+        ("ladder:>={i}_", ">={i} ".into(), "<900000000".into()),
+        ("ladder:<{i}_", "<{i} ".into(), ">0".into()),
+        ("ladder:{i}||", "{i}||".into(), "1".into()),
+        ("ladder:{i}.x_", "{i}.x ".into(), "".into()),
+        ("ladder:^{i}.{i}_||_", "^{i}.{i} || ".into(), "1".into()),
+        ("ladder:>=1.2.{i}_", ">=1.2.{i} ".into(), "".into()),
+        ("ladder:{i}_-_{i}.5||", "{i} - {i}.5||".into(), "1".into()),
+        ("ladder:1.2.3-{i}.", "{i}.".into(), "a".into()),
+        ("ladder:1.2.3+{i}.", "{i}.".into(), "a".into()),
+        ("ladder:foo{i}_", "foo{i} ".into(), "1".into()),
     ]
+}
+
+pub fn family_text(name: &str, unit: &str, tail: &str, n: usize) -> String {
+    let mut s = if name == "1.2.3-a.a." || name == "ladder:1.2.3-{i}." {
+        "1.2.3-".to_string()
+    } else if name == "ladder:1.2.3+{i}." {
+        "1.2.3+".to_string()
+    } else {
+        String::new()
+    };
+    if name.starts_with("ladder:") {
+        for i in 1..=n {
+            s.push_str(&unit.replace("{i}", &i.to_string()));
+        }
+    } else {
+        s.push_str(&unit.repeat(n));
+    }
+    s.push_str(tail);
+    s
 }
 
 pub fn scaling(run: &mut PropRun, cfg: &RunCfg) {
@@ -466,12 +506,9 @@ pub fn scaling(run: &mut PropRun, cfg: &RunCfg) {
             .into_iter()
             .map(|(name, unit, tail)| {
                 sc.spawn(move || {
-                    let mk = |n: usize| {
-                        let mut s = if name == "1.2.3-a.a." { "1.2.3-".to_string() } else { String::new() };
-                        s.push_str(&unit.repeat(n));
-                        s.push_str(&tail);
-                        s
-                    };
+                    let ladder = name.starts_with("ladder:");
+                    let base = if ladder { base / 4 } else { base };
+                    let mk = |n: usize| family_text(name, &unit, &tail, n);
                     let mut ratios = vec![];
                     let mut t_big = 0.0;
                     let mut flagged = 0;
@@ -521,13 +558,15 @@ pub fn scaling(run: &mut PropRun, cfg: &RunCfg) {
 
 pub fn run(cfg: &RunCfg) -> PropRun {
     let mut run = PropRun::default();
-    run.rule = "pools of 2..4 input strings (token soup over every token class incl. MAX_SAFE_INTEGER+1, u64::MAX, 2^64, 30-digit numbers, multi-byte and control characters; AST-rendered ranges incl. the finding classes; algebra leaf texts over adjacent versions; spelled versions with edits; limit numbers under every operator; long repetitions; multi-line/over-long texts) + every string up to length 5 over a 14-symbol alphabet + near-limit lengths. For each string both parsers run; on every Ok/Err the whole public surface is called under catch_unwind with overflow checks and debug assertions on: Display/Debug/Clone/==/Hash/serde, every SemverError accessor and miette diagnostic incl. three report handlers, satisfies, min_version, max/min_satisfying, diff, and intersect/difference/allows_all/allows_any on all ordered pairs incl. each value against itself, then on results up to composition depth 3 (operands capped at 64 alternatives). A watchdog turns a >60 s case into exit 2; CPU-time scaling of 16 adversarial families is measured at n and 8n. Non-trivial = a pool where a parser succeeded and a binary operation ran, or error accessors ran on a non-ASCII / multi-line input; distinct by the pool.".into();
+    run.rule = "pools of 2..4 input strings (token soup over every token class incl. MAX_SAFE_INTEGER+1, u64::MAX, 2^64, 30-digit numbers, multi-byte and control characters; AST-rendered ranges incl. the finding classes; algebra leaf texts over adjacent versions; spelled versions with edits; limit numbers under every operator; long repetitions; multi-line/over-long texts) + every string up to length 5 over a 14-symbol alphabet + near-limit lengths. For each string both parsers run; on every Ok/Err the whole public surface is called under catch_unwind with overflow checks and debug assertions on: Display/Debug/Clone/==/Hash/serde, every SemverError accessor and miette diagnostic incl. three report handlers, satisfies, min_version, max/min_satisfying, diff, and intersect/difference/allows_all/allows_any on all ordered pairs incl. each value against itself, then on results up to composition depth 3 (operands capped at 64 alternatives). A watchdog turns a >60 s case into exit 2; CPU-time scaling of 30 adversarial families (20 repetitions of one unit, 10 ladders of pairwise different units) is measured at n and 8n. Non-trivial = a pool where a parser succeeded and a binary operation ran, or error accessors ran on a non-ASCII / multi-line input; distinct by the pool.".into();
     run.assumptions = vec![
         "negative tuple components are outside the property (debug_assert documents the precondition)".into(),
         "binary operations are inherently O(|A||B|) in the number of alternatives; only the parsers and unary operations are held to the linear-time clause".into(),
         "miette's fancy handler cannot be built offline".into(),
     ];
     start_watchdog(Duration::from_secs(60));
+    let _ = std::fs::remove_dir_all(current_dir());
+    let _ = std::fs::create_dir_all(current_dir());
     // exhaustive short strings
     let alpha: Vec<char> = SHORT_ALPHA.chars().collect();
     let len = if cfg.scale < 0.5 { 4 } else { 5 };
@@ -568,6 +607,9 @@ pub fn run(cfg: &RunCfg) -> PropRun {
 pub struct Risky {
     pub kind: String,
     pub n: usize,
+    /// kind "pool": the input strings of one in-process case that is re-executed under supervision
+    #[serde(default)]
+    pub inputs: Vec<String>,
 }
 
 pub fn risky_items(cfg: &RunCfg) -> Vec<Risky> {
@@ -575,21 +617,22 @@ pub fn risky_items(cfg: &RunCfg) -> Vec<Risky> {
     let big = if cfg.tier == Tier::Thorough { 150_000 } else { 30_000 };
     for (name, _, _) in scaling_families() {
         for n in [200usize, 5_000, big] {
-            out.push(Risky { kind: format!("long:{}", name), n });
+            let n = if name.starts_with("ladder:") && n == big { big / 4 } else { n };
+            out.push(Risky { kind: format!("long:{}", name), n, inputs: vec![] });
         }
     }
     let ops_n: Vec<usize> = if cfg.tier == Tier::Thorough { vec![300, 2500, 6000] } else { vec![300, 2500] };
     for fam in ["desc", "asc", "alternating", "nested", "touching", "dups", "prerelease-desc"] {
         for n in &ops_n {
-            out.push(Risky { kind: format!("ops:{}", fam), n: *n });
+            out.push(Risky { kind: format!("ops:{}", fam), n: *n, inputs: vec![] });
         }
     }
     // results fed back as operands many times (capacity / size blow-up), and both operands large
     for n in [6usize, 14, 40] {
-        out.push(Risky { kind: "iterate".into(), n });
+        out.push(Risky { kind: "iterate".into(), n, inputs: vec![] });
     }
     for n in [120usize, 240] {
-        out.push(Risky { kind: "both-large".into(), n });
+        out.push(Risky { kind: "both-large".into(), n, inputs: vec![] });
     }
     out
 }
@@ -612,9 +655,7 @@ fn big_operand(fam: &str, n: usize) -> String {
 pub fn risky_body(item: &Risky) -> Result<(), Failure> {
     if let Some(name) = item.kind.strip_prefix("long:") {
         let (_, unit, tail) = scaling_families().into_iter().find(|(n, _, _)| *n == name).ok_or_else(|| Failure::new("bad-replay", "unknown family".into()))?;
-        let mut s = if name == "1.2.3-a.a." { "1.2.3-".to_string() } else { String::new() };
-        s.push_str(&unit.repeat(item.n));
-        s.push_str(&tail);
+        let s = family_text(name, &unit, &tail, item.n);
         match g("Version::parse", &s.len(), || Version::parse(&s))? {
             Ok(v) => exercise_version("long input", &v)?,
             Err(e) => exercise_error("Version::parse", &s, &e)?,
@@ -630,6 +671,9 @@ pub fn risky_body(item: &Risky) -> Result<(), Failure> {
             Err(e) => exercise_error("Range::parse", &s, &e)?,
         }
         return Ok(());
+    }
+    if item.kind == "pool" {
+        return check_pool(&item.inputs, &mut Stats::default());
     }
     if item.kind == "iterate" {
         // r = r op r / r op k, n rounds: the number of alternatives stays small, so must time and memory
@@ -730,7 +774,8 @@ pub fn risky_child(json: &str) -> i32 {
         Ok(i) => i,
         Err(_) => return 2,
     };
-    let h = std::thread::Builder::new().stack_size(256 * 1024).spawn(move || risky_body(&item));
+    let stack = if item.kind == "pool" { 8 * 1024 * 1024 } else { 256 * 1024 };
+    let h = std::thread::Builder::new().stack_size(stack).spawn(move || risky_body(&item));
     match h.map(|h| h.join()) {
         Ok(Ok(Ok(()))) => 0,
         Ok(Ok(Err(f))) => {
@@ -743,6 +788,25 @@ pub fn risky_child(json: &str) -> i32 {
         }
         Err(_) => 2,
     }
+}
+
+/// after the main C06 process died: re-execute the pools that were running, each in its own child;
+/// returns (pool, message) for every one that crashes or fails again
+pub fn crashed_candidates() -> Vec<(Vec<String>, String)> {
+    let mut out = vec![];
+    if let Ok(rd) = std::fs::read_dir(current_dir()) {
+        for e in rd.filter_map(|e| e.ok()) {
+            if let Ok(t) = std::fs::read_to_string(e.path()) {
+                if let Ok(pool) = serde_json::from_str::<Vec<String>>(&t) {
+                    let item = Risky { kind: "pool".into(), n: 0, inputs: pool.clone() };
+                    if let Ok(Some(m)) = run_risky_item(&item) {
+                        out.push((pool, m));
+                    }
+                }
+            }
+        }
+    }
+    out
 }
 
 /// run one supervised case in a child process; Some(message) = violation, None = fine, Err = inconclusive
@@ -808,6 +872,15 @@ pub fn risky(run: &mut PropRun, cfg: &RunCfg) {
 }
 
 pub fn replay(campaign: &str, case: &Value) -> Result<(), Failure> {
+    if campaign == "crashed-pool" {
+        let pool: Vec<String> = serde_json::from_value(case.clone()).map_err(|e| Failure::new("bad-replay", e.to_string()))?;
+        let item = Risky { kind: "pool".into(), n: 0, inputs: pool.clone() };
+        return match run_risky_item(&item) {
+            Ok(None) => Ok(()),
+            Ok(Some(m)) => Err(Failure::new("crash-or-panic", format!("pool {:?}: {}", pool, m))),
+            Err(m) => Err(Failure::new("supervised-inconclusive", format!("{} {}", INCONCLUSIVE, m))),
+        };
+    }
     if campaign == "supervised" {
         let item: Risky = serde_json::from_value(case.clone()).map_err(|e| Failure::new("bad-replay", e.to_string()))?;
         return match run_risky_item(&item) {
